@@ -151,6 +151,26 @@ func (s *c15State) exprSig(n *qNode, count bool) string {
 	return "expr/" + strings.Join(n.kinds(), "+") + suffix
 }
 
+// typeTag names the field class used in mutation/state signatures.
+func (s *c15State) typeTag(f *mField) string {
+	if f.Type == "time" && f.NoStd {
+		if s.env.Nodes > 1 {
+			return "cluster-time-nostandard"
+		}
+		return "time-nostandard"
+	}
+	return f.Type
+}
+
+// beyond reports whether predicate p is at/beyond the bit-depth range of the
+// field; on a cluster the smallest per-shard depth decides (each node keeps its own depth).
+func (s *c15State) beyond(f *mField, p int64) bool {
+	if s.env.Nodes > 1 {
+		return mBeyond(f.minShardDepth(), p)
+	}
+	return f.beyondDepth(p)
+}
+
 func c15Inequality(op string) bool {
 	return op == "<" || op == "<=" || op == ">" || op == ">=" || op == "between"
 }
